@@ -49,6 +49,15 @@ impl<'a, 'b> InterpStack<'a, 'b> {
                             }
                         }
 
+                        // A name that is not bound while the compiler folds
+                        // constants is a run-time input: stop the folding, so
+                        // that no construct that tolerates a failed operand
+                        // (a match arm, `||`, a list that is only measured)
+                        // turns the missing value into a constant.
+                        if crate::utils::clock::folding_constants() {
+                            return Err(CelError::binding(&name));
+                        }
+
                         Ok(CelValue::from_err(CelError::binding(&name)).into())
                     } else {
                         Ok(val.into())
